@@ -95,7 +95,7 @@ void Child::finish() {
   res.loghash = log.h;
   std::string o;
   if (!res.vclass.empty()) o += "V " + esc(res.vclass) + "\t" + esc(res.vkey) + "\t" + esc(res.vmsg) + "\n";
-  o += strf("H %llu %llu\n", (unsigned long long)res.loghash, (unsigned long long)res.steps);
+  o += strf("H %llu %llu %llu\n", (unsigned long long)res.loghash, (unsigned long long)res.steps, (unsigned long long)res.dkey);
   for (auto &kv : res.counters) o += strf("C %s %llu\n", kv.first.c_str(), (unsigned long long)kv.second);
   if (!state_set.empty()) {
     o += "S";
@@ -168,9 +168,9 @@ static void parse_result(const std::string &blob, RunResult &r, bool &complete) 
       if (f.size() > 1) r.vkey = unesc(f[1]);
       if (f.size() > 2) r.vmsg = unesc(f[2]);
     } else if (t == 'H') {
-      unsigned long long a = 0, b = 0;
-      sscanf(rest.c_str(), "%llu %llu", &a, &b);
-      r.loghash = a; r.steps = b;
+      unsigned long long a = 0, b = 0, c3 = 0;
+      sscanf(rest.c_str(), "%llu %llu %llu", &a, &b, &c3);
+      r.loghash = a; r.steps = b; r.dkey = c3;
     } else if (t == 'C') {
       auto w = words(rest);
       if (w.size() == 2) r.counters[w[0]] = strtoull(w[1].c_str(), nullptr, 10);
@@ -509,7 +509,7 @@ static int cmd_batch(const Engine *eng) {
       for (auto h : r.states) sum.states.insert(h);
       for (auto &kv : r.known) sum.known_hits[kv.first] += kv.second;
       sum.loghashes.insert(r.loghash);
-      if (r.steps > 0 && r.end == "ok") nontrivial_keys.insert(r.loghash);
+      if (r.steps > 0 && r.end == "ok") nontrivial_keys.insert(r.dkey ? r.dkey : r.loghash);
       // samples spread over the batch (enumerated cells come first, random plans later)
       bool sample_slot = job == 0 || job == g_opt.runs / 2 || job + 1 == g_opt.runs || job == (g_opt.runs * 3) / 4;
       if (sample_slot && sum.sample_plans.size() < 4 && r.end == "ok" && !r.violated()) {
